@@ -584,3 +584,10 @@ F("K74", "C12", NS, "      return precomputed[:k] + [sum(precomputed[k:])]", "  
 F("K75", "C12", NS, "    v[min(k, cnt)] += 1\n  pi = OverlappingTemplateMatchingDistribution(n, m, k)", "    v[min(k, cnt)] += 1\n  pi = OverlappingTemplateMatchingDistribution(n, m, k - 1)", "R-C12-CONSIST", "table for another number of classes")
 T("K76", "C12", NS, "  for p in params[::-1]:\n    if n >= p[0]:", "  for p in reversed(params):\n    if not n < p[0]:", "ladder via reversed() and a negated comparison")
 F("K77", "C12", XS, "    if k >= len(ASYMPTOTIC_RANK_SF):", "    if k > len(ASYMPTOTIC_RANK_SF):", "R-C12-CONSIST", "deficiency equal to the table length indexes past the end")
+
+# ---------------------------------------------------------------------------------- C12 aperiodic templates (round 3)
+F("L01", "C12", NS, "  for i in range(1, m):\n    if template >> (m - i) == template & ((1 << i) - 1):", "  for i in range(1, (m + 1) // 2):\n    if template >> (m - i) == template & ((1 << i) - 1):", "R-C12-TEMPLATE", "only borders shorter than m/2 tested (seed r3)")
+F("L02", "C12", NS, "    if template >> (m - i) == template & ((1 << i) - 1):", "    if template >> i == template & ((1 << i) - 1):", "R-C12-TEMPLATE", "prefix and suffix of different lengths compared")
+T("L03", "C12", NS, "  for i in range(1, m):\n    if template >> (m - i) == template & ((1 << i) - 1):", "  for j in range(1, m):\n    low = template & ((1 << j) - 1)\n    if low == template >> (m - j):", "border test with renamed variable and temporary")
+T("L04", "C12", NS, "    if template >> (m - i) == template & ((1 << i) - 1):", "    if template >> i == template & ((1 << (m - i)) - 1):", "border length m - i instead of i: the same set of lengths")
+F("L06", "C12", NS, "    for b in range(2**m):\n      if IsNonOverlappingTemplate(b, m):", "    for b in range(2**(m - 1)):\n      if IsNonOverlappingTemplate(b, m):", "R-C12-TEMPLATE", "default set covers half of the templates")
